@@ -71,8 +71,16 @@ static NEXT_SLOT: std::sync::atomic::AtomicUsize = std::sync::atomic::AtomicUsiz
 pub static BUSY: [std::sync::atomic::AtomicU64; BUSY_SLOTS] = [const { std::sync::atomic::AtomicU64::new(0) }; BUSY_SLOTS];
 static T0: std::sync::OnceLock<std::time::Instant> = std::sync::OnceLock::new();
 
+/// Coarse clock: milliseconds since process start, refreshed by the watchdog thread about every 200 ms (reading
+/// the real clock in every guarded call would cost more than many of the calls themselves).
+pub static COARSE_MS: std::sync::atomic::AtomicU64 = std::sync::atomic::AtomicU64::new(0);
+
 pub fn now_ms() -> u64 {
     T0.get_or_init(std::time::Instant::now).elapsed().as_millis() as u64
+}
+
+pub fn coarse_ms() -> u64 {
+    COARSE_MS.load(std::sync::atomic::Ordering::Relaxed)
 }
 
 /// Install a panic hook that stays silent for panics inside `guarded` (those are captured and
@@ -93,7 +101,7 @@ pub fn guarded<T, F: FnOnce() -> T>(f: F) -> Result<T, String> {
         d.get() == 1
     });
     if outermost {
-        BUSY_SLOT.with(|i| BUSY[*i].store(now_ms() + 1, std::sync::atomic::Ordering::Relaxed));
+        BUSY_SLOT.with(|i| BUSY[*i].store(coarse_ms() + 1, std::sync::atomic::Ordering::Relaxed));
     }
     let r = catch_unwind(AssertUnwindSafe(f));
     if outermost {
